@@ -401,6 +401,9 @@ def run(tier):
     n = 160 if quick else 5000
     import itertools
     from props import c02
+    # P: the disassembler-side operand kernels (relative-jump targets, index offsets): every code statement of a
+    # disassembly depends on them; same obligations as under C02, reported here as well
+    c02.check_disassembler_kernels(rep)
     with Pool(common.NCPU) as p:
         # E: the text of every numeric operand / DEFB / DEFW item, in every base, evaluates back to the value
         # (the same enumeration C02 owns: lossless disassembly depends on it for every data statement)
@@ -460,6 +463,12 @@ def replay(path):
         doc = json.load(f)
     print('replaying', doc.get('key'), doc.get('case'))
     case = doc.get('case') or {}
+    if str(doc.get('key', '')).startswith('C02/'):
+        from props import c02
+        rc = c02.replay(path)
+        if rc == 1:
+            print('VIOLATION property=C01 replay=%s' % path)
+        return rc
     if 'num_bytes' in case:
         from props import c02
         n_, bad = c02.numbers_chunk((case['asm_hex'], case['asm_lower'], case['num_bytes'], case['value'], case['value'] + 1))
